@@ -125,6 +125,8 @@ def gen_cam_lines(rng, two):
 
 def scenario(rng, kind):
     """Returns (program lines, meta).  kind in basic | monitor | abort | fault | api."""
+    if kind == "api":
+        return api_scenario(rng)
     two = rng.random() < 0.3
     cams = gen_cam_lines(rng, two)
     streams = [0, 1] if two else [0]
@@ -224,6 +226,119 @@ def scenario(rng, kind):
     return prog, meta
 
 
+def api_scenario(rng):
+    """kind "api": an arbitrary client program over configure / start / stop / abort / trigger / map / unmap / state, in any
+    order and number (start while running, stop or abort when idle, re-configure -- also while running, also with the other
+    device pair --, a stream switched off and on again), closed by shutdown.  Only restriction (DESIGN 6.8): stop is not
+    issued while an unbounded or trigger-gated acquisition is running, and a registered monitor drains before a stop."""
+    two = rng.random() < 0.35
+    cams = gen_cam_lines(rng, True)
+    trig = rng.random() < 0.15
+    for c in cams.values():
+        c["trig"] = 1 if trig else 0
+    fsz = max(frame_size(c["w"], c["h"], c["t"]) for c in cams.values())
+    ring = fsz * rng.choice([2, 3, 3, 4, 6]) + rng.choice([0, 8, 16]) + 8
+    prog = ["ring %d" % ring, "filtring %d" % ring, "seed %d" % rng.randint(1, 1 << 30)]
+    if rng.random() < 0.2:
+        prog.append("pct %d" % rng.randint(1, 3))
+    for idx, c in cams.items():
+        prog.append("cam %d w=%d h=%d type=%d trig=%d pace=%d" % (idx, c["w"], c["h"], c["t"], c["trig"], c["pace"]))
+    prog.append("init")
+    wild = rng.random() < 0.3            # 30 % arbitrary programs, 70 % "sensible" sessions with a few odd calls mixed in
+    meta = dict(kind="api", cams=cams, ring=ring, streams=[0, 1], acqs=[])
+    running = False                      # as the client sees it: start returned ok and no stop/abort since
+    unbounded = False
+    configured = False
+    mon_streams = set()
+    streams = [0, 1] if two else [0]
+
+    cfg_unb = [False]                    # the configuration in force asks for an unbounded acquisition on some stream
+
+    def emit_cfg(while_running):
+        nonlocal unbounded
+        unb = False
+        # device choice: the stream's own pair, the other pair (both streams swap together, so that two streams never share a
+        # device), or none (stream switched off)
+        r = rng.random()
+        swap = configured and r < (0.25 if wild else 0.08)
+        for s in streams:
+            if rng.random() < (0.1 if wild else 0.04):
+                dev = "none"                       # the stream is switched off
+            else:
+                dev = ("BA" if swap else "AB")[s]
+            n = rng.choice([0, 1, 2, 3, 5, 8, 13, rng.randint(1, 30)])
+            if rng.random() < 0.15:
+                n = 1 << 40
+                unb = True
+            prog.append("cfg %d cam=%s sto=%s n=%d avg=0 delay=%g" % (s, dev, dev, n, rng.choice([0, 0, 0, 0.5, 2])))
+        prog.append("configure")
+        cfg_unb[0] = unb
+        if while_running:
+            unbounded = unbounded or unb        # max_frame_count is changed under the running source
+
+    ncmd = rng.randint(4, 26)
+    emit_cfg(False)
+    configured = True
+    for _ in range(ncmd):
+        r = rng.random()
+        if not running:
+            if r < 0.45:
+                prog.append("start")
+                running = True
+                unbounded = cfg_unb[0]
+            elif r < 0.65:
+                emit_cfg(False)
+            elif r < 0.72:
+                prog.append(rng.choice(["stop", "abort"]))        # when idle
+            elif r < 0.80:
+                prog.append("state")
+            elif r < 0.88:
+                s = rng.choice(streams)
+                prog.append("map %d" % s)
+                prog.append("unmap %d %s" % (s, rng.choice(["all", "all", "none", "frames 1"])))
+                mon_streams.add(s)
+            elif r < 0.93:
+                prog.append("trigger %d" % rng.choice(streams))
+            else:
+                prog.append("yield %d" % rng.randint(1, 20))
+        else:
+            odd = 0.22 if wild else 0.06
+            if r < odd / 2:
+                prog.append("start")                               # start while running
+                running = False                                    # it fails and aborts the acquisition
+                unbounded = False
+            elif r < odd:
+                emit_cfg(True)                                     # configure while running
+            elif r < odd + 0.25:
+                prog.append("yield %d" % rng.randint(1, 60))
+            elif r < odd + 0.40:
+                s = rng.choice(streams)
+                prog.append("map %d" % s)
+                if rng.random() < 0.3:
+                    prog.append("yield %d" % rng.randint(1, 30))
+                prog.append("unmap %d %s" % (s, rng.choice(["all", "all", "half", "frames 1", "none"])))
+                mon_streams.add(s)
+            elif r < odd + 0.48:
+                prog.append("trigger %d" % rng.choice(streams))
+            elif r < odd + 0.55:
+                prog.append("state")
+            else:
+                if unbounded or trig or rng.random() < 0.4:
+                    prog.append("abort")
+                else:
+                    for s in sorted(mon_streams):
+                        prog.append("drain %d" % s)
+                    prog.append("stop")
+                prog.append("state")
+                running = False
+                unbounded = False
+    if rng.random() < 0.5 and running:
+        prog.append("abort")
+        prog.append("state")
+    prog.append("shutdown")
+    return prog, meta
+
+
 def meta_from_prog(prog):
     """Reconstruct the oracle's meta (camera shapes) from a program (corpus / replay files)."""
     cams = {}
@@ -265,6 +380,7 @@ class Acq:
         self.start_ok = None
         self.returned = False
         self.mon_reg_at_start = False   # the monitor reader of this stream was registered before this acquisition started
+        self.reconf = False             # acquire_configure was called while this acquisition's devices were running
 
 
 def oracle(prog, lines, meta):
@@ -292,38 +408,78 @@ def oracle(prog, lines, meta):
     in_call = None
     fresh_tag = {}
     mon_registered = {0: False, 1: False}
+    late_reg = {0: False, 1: False}   # the monitor reader registered when the ring already held frames of earlier acquisitions, and no
+                                      # stop/abort has flushed it since: what it is handed first is stale (known finding D14b)
+    tainted = set()               # devices touched by a configure that was issued while they (or their stream's devices) were running
+    taint_open = False
+    switched = [False]            # some configure-while-running asked for other devices than the running ones
+
+    def reconf_key():
+        return "protocol-broken-after-configure-while-running-" + ("other-devices" if switched[0] else "same-devices")
+
+    def add8(key, k, msg):
+        if key in tainted:
+            add("C08", reconf_key(), msg + " [" + k + "; after acquire_configure was called while the stream was running]")
+        else:
+            add("C08", k, msg)
 
     def dev_event(key, ev, line):
         d = dev.setdefault(key, dict(open=False, closed=False, running=False, starts=0, stops=0))
         if ev == "open":
             d["open"] = True
+            if taint_open:
+                tainted.add(key)
             return
         if d["closed"]:
-            add("C08", "use-after-close", "device %s used after close: %s" % (key, line))
+            add8(key, "use-after-close", "device %s used after close: %s" % (key, line))
             return
         if not d["open"]:
-            add("C08", "use-before-open", "device %s used before open: %s" % (key, line))
+            add8(key, "use-before-open", "device %s used before open: %s" % (key, line))
         if ev == "close":
             d["closed"] = True
             if d["running"]:
-                add("C08", "close-while-running", "device %s closed while running (no stop after its last start): %s" % (key, line))
+                add8(key, "close-while-running", "device %s closed while running (no stop after its last start): %s" % (key, line))
         elif ev == "start":
             if d["running"]:
-                add("C08", "start-while-running", "device %s started while already running" % key)
+                add8(key, "start-while-running", "device %s started while already running" % key)
             d["running"] = True
             d["starts"] += 1
         elif ev == "stop":
             if not d["running"]:
-                add("C08", "stop-without-start", "device %s stopped without a preceding start (or stopped twice)" % key)
+                add8(key, "stop-without-start", "device %s stopped without a preceding start (or stopped twice)" % key)
             d["running"] = False
             d["stops"] += 1
         elif ev in ("append", "get_frame"):
             if not d["running"]:
-                add("C08", "io-outside-run", "device %s received %s outside start..stop" % (key, ev))
+                add8(key, "io-outside-run", "device %s received %s outside start..stop" % (key, ev))
 
     for l in lines:
         w = l.split()
-        if l.startswith("A configure"):
+        if l.startswith("A configure call"):
+            # a configure issued while a device of a running acquisition is running: everything that follows on those devices
+            # (and on the devices this call opens) is classified as a consequence of it
+            in_call = "configure"
+            for s in list(cur):
+                a = cur[s]
+                keys = [k for k, d in dev.items() if d["open"] and not d["closed"] and
+                        (k.startswith("cam%d#" % a.camidx) or k.startswith("sto%d#" % a.stoidx))]
+                if any(dev[k]["running"] for k in keys):
+                    a.reconf = True
+                    tainted.update(keys)
+                    taint_open = True
+                    # which devices will this configure ask for?  (the cfg lines between the previous configure and this one)
+                    newcfg = dict(cfg.get(s, {}))
+                    q = prog_pos
+                    while q < len(prog) and not prog[q].startswith("configure"):
+                        if prog[q].startswith("cfg %d " % s):
+                            kvs = dict(x.split("=") for x in prog[q].split()[2:])
+                            newcfg.update(cam=kvs.get("cam"), sto=kvs.get("sto"))
+                        q += 1
+                    if (newcfg.get("cam"), newcfg.get("sto")) != (a.cfg.get("cam"), a.cfg.get("sto")):
+                        switched[0] = True
+        elif l.startswith("A configure ->"):
+            in_call = None
+            taint_open = False
             # apply cfg lines up to this configure
             while prog_pos < len(prog) and not prog[prog_pos].startswith("configure"):
                 pl = prog[prog_pos]
@@ -337,16 +493,35 @@ def oracle(prog, lines, meta):
         elif l.startswith("A start call"):
             for s in sorted(valid):
                 camidx = "AB".index(cfg[s]["cam"])
+                stoidx = "AB".index(cfg[s]["sto"])
+                old = cur.get(s)
+                busy = old is not None and not old.returned and any(
+                    d["running"] for k, d in dev.items() if k.startswith("cam%d#" % old.camidx) or k.startswith("sto%d#" % old.stoidx))
+                if busy:
+                    # start while running: the HAL refuses to start a running device, acquire_start fails and aborts the
+                    # acquisition in progress; no new acquisition begins on this stream
+                    old.aborted = True
+                    old.restarted = True
+                    continue
+                for s2 in list(cur):
+                    # a stream whose devices are now used by stream s has been re-assigned: its last acquisition is history
+                    if s2 != s and (cur[s2].camidx == camidx or cur[s2].stoidx == stoidx):
+                        del cur[s2]
                 cur[s] = Acq(s, dict(cfg[s]), cams.get(camidx, dict(w=4, h=3, t=0)))
                 cur[s].camidx = camidx
-                cur[s].stoidx = "AB".index(cfg[s]["sto"])
+                cur[s].stoidx = stoidx
                 cur[s].mon_reg_at_start = mon_registered[s]
                 hist[s].append(cur[s])
             in_call = "start"
         elif l.startswith("A start ->"):
             for s in valid:
                 if s in cur:
-                    cur[s].start_ok = "-> ok" in l
+                    if getattr(cur[s], "restarted", False):
+                        cur[s].restarted = False
+                        if "-> ok" not in l:
+                            cur[s].returned = True      # the failed start has aborted it
+                    else:
+                        cur[s].start_ok = "-> ok" in l
             in_call = None
         elif l.startswith(("A stop call", "A abort call", "A shutdown call")):
             in_call = w[1]
@@ -357,6 +532,7 @@ def oracle(prog, lines, meta):
         elif l.startswith(("A stop ->", "A abort ->")):
             in_call = None
             for s in valid:
+                late_reg[s] = False             # acquire_stop has drained the monitor reader of every valid stream
                 if s in cur:
                     cur[s].returned = True
         elif l.startswith("A state ->"):
@@ -410,7 +586,11 @@ def oracle(prog, lines, meta):
                 elif ev == "stop":
                     acq.sto_stopped = True
         elif l.startswith("R s") and len(w) > 4 and w[2] == "sink.in" and w[3] == "mon" and w[4] == "rmap":
-            mon_registered[int(w[1][1])] = True
+            s = int(w[1][1])
+            if not mon_registered[s]:
+                earlier = [a for a in hist[s] if a.cam_started and not (a is cur.get(s) and not a.returned)]
+                late_reg[s] = bool(earlier)
+            mon_registered[s] = True
         elif l.startswith("M s"):
             s = int(w[1][1])
             m = mon_state.setdefault(s, dict(expect=None, held=[], acq=None))
@@ -437,12 +617,14 @@ def oracle(prog, lines, meta):
                 a = m["acq"]
                 if a is not None:
                     for f in m["held"][:k]:
-                        a.mon.append(dict(f, seen_returned=a.returned))
+                        a.mon.append(dict(f, seen_returned=a.returned, late=late_reg[s]))
                 m["held"] = []
 
     # ---- per acquisition verdicts
     for s in hist:
         for ai, a in enumerate(hist[s]):
+            if a.reconf:
+                continue          # re-configured while running: outside the scenario of C04/C06/C07/C09; C08's verdicts are per device
             cam = a.cam
             want_sz = frame_size(cam["w"], cam["h"], cam["t"])
             avg = a.cfg["avg"] > 1
@@ -488,7 +670,7 @@ def oracle(prog, lines, meta):
                         want = px_hash_c(a.camidx, a.tag, f["hw"], cam["w"], cam["h"], cam["t"])
                         if f["px"] != want:
                             stale = any(px_hash_c(a.camidx, t, f["hw"], cam["w"], cam["h"], cam["t"]) == f["px"] for t in range(1, a.tag))
-                            if not a.mon_reg_at_start and not fresh_seen:
+                            if f.get("late") and not fresh_seen:
                                 # the reader registered for the first time during this acquisition and these frames come before
                                 # any frame of this acquisition: it joined the ring at offset 0 of the current lap (known finding)
                                 add("C06", "monitor-stale-first-use", "stream %d acquisition %d: a monitor reader that registered for the first time in this "
@@ -518,12 +700,17 @@ def oracle(prog, lines, meta):
     if deadlock:
         call = in_call or "?"
         tail = [l for l in lines if l.startswith(("  T", "DEADLOCK", "STEPLIMIT"))][:8]
-        add("LIVE", "hang-in-" + call, "the run did not finish: %s during `%s`: %s" % ("deadlock" if any(l.startswith("DEADLOCK") for l in lines) else "step limit", call, " / ".join(tail)))
+        if any(a.reconf for s in hist for a in hist[s]):
+            add("C08", reconf_key(), "the run did not finish after acquire_configure was called while a stream was running: " + " / ".join(tail))
+        else:
+            add("LIVE", "hang-in-" + call, "the run did not finish: %s during `%s`: %s" % ("deadlock" if any(l.startswith("DEADLOCK") for l in lines) else "step limit", call, " / ".join(tail)))
+    if any(a.reconf for s in hist for a in hist[s]):
+        add("INFO", reconf_key(), "acquire_configure was called while a stream was running")
     # ---- C08: every opened device closed once shutdown returned
     if any(l.startswith("A shutdown ->") for l in lines):
         for key, d in dev.items():
             if d["open"] and not d["closed"]:
-                add("C08", "not-closed", "device %s was opened but never closed by shutdown" % key)
+                add8(key, "not-closed", "device %s was opened but never closed by shutdown" % key)
     # ---- state reports
     prev = None
     for l in lines:
@@ -560,12 +747,19 @@ def in_model_scope(prog):
     return True, ""
 
 
+class Events(list):
+    """model events of a log; .scope = None, or the reason why the log is outside the model's grammar G1"""
+    scope = None
+
+
 def to_events(prog, lines):
-    """Translate the harness log into the event alphabet of the Coq model.  Returns (events, index map to log lines)."""
+    """Translate the harness log into the event alphabet of the Coq model.  Returns (events, index map to log lines).
+    events.scope names the first thing in the log that grammar G1 does not cover (configure / start while a worker is alive)."""
     tids = list(getattr(lines, "tids", [])) or [0] * len(lines)
     cams = meta_from_prog(prog)["cams"]
-    ev = []
+    ev = Events()
     src = []
+    alive = set()        # worker threads created and not yet exited
     roles = {}           # thread id -> (stream, actor)
     pending = []         # roles of the threads acquire_start is about to create
     cfg = {}
@@ -602,6 +796,10 @@ def to_events(prog, lines):
         if not w:
             continue
         if w[0] == "A":
+            if w[1] in ("configure", "start") and w[2] == "call" and alive and ev.scope is None:
+                ev.scope = "acquire_%s called while a worker thread is alive" % w[1]
+            if w[1] == "configure" and w[2] == "call":
+                continue
             if w[1] == "configure":
                 while prog_pos < len(prog) and not prog[prog_pos].startswith("configure"):
                     pl = prog[prog_pos]
@@ -632,9 +830,11 @@ def to_events(prog, lines):
                 if t == 0 and pending:
                     s, r = pending.pop(0)
                     roles[new] = (s, r)
+                    alive.add(new)
                     emit("S %d cli spawn %s" % (s, r), i)
                 # other creations: the harness' monitor thread (acts as the client)
             elif w[2] == "exit":
+                alive.discard(t)
                 if t in roles:
                     s, r = roles[t]
                     emit("S %d %s exit %s" % (s, r, r), i)
